@@ -245,11 +245,14 @@ func (c *compiler) evalFunctionLiteral(node *ast.FunctionLiteral) (interface{}, 
 }
 
 func (c *compiler) evalPrefixExpression(node *ast.PrefixExpression) (interface{}, error) {
+	cur := c.curStmt
 	res, err := c.evalExpression(node.Right)
 	if err != nil {
 		if _, ok := err.(*ErrUnknownIdentifier); !ok {
 			return nil, err
 		}
+		// the failure is forgiven: the statement it happened in is no longer blamed
+		c.curStmt = cur
 	}
 
 	switch node.Operator {
@@ -261,11 +264,13 @@ func (c *compiler) evalPrefixExpression(node *ast.PrefixExpression) (interface{}
 }
 
 func (c *compiler) evalIfExpression(node *ast.IfExpression) (interface{}, error) {
+	cur := c.curStmt
 	con, err := c.evalExpression(node.Condition)
 	if err != nil {
 		if _, ok := err.(*ErrUnknownIdentifier); !ok {
 			return nil, err
 		}
+		c.curStmt = cur
 	}
 
 	if c.isTruthy(con) {
@@ -278,11 +283,13 @@ func (c *compiler) evalIfExpression(node *ast.IfExpression) (interface{}, error)
 func (c *compiler) evalElseAndElseIfExpressions(node *ast.IfExpression) (interface{}, error) {
 	var r interface{}
 	for _, eiNode := range node.ElseIf {
+		cur := c.curStmt
 		eiCon, err := c.evalExpression(eiNode.Condition)
 		if err != nil {
 			if _, ok := err.(*ErrUnknownIdentifier); !ok {
 				return nil, err
 			}
+			c.curStmt = cur
 		}
 
 		if c.isTruthy(eiCon) {
@@ -548,10 +555,14 @@ func (c *compiler) evalIdentifier(node *ast.Identifier) (interface{}, error) {
 }
 
 func (c *compiler) evalInfixExpression(node *ast.InfixExpression) (interface{}, error) {
+	cur := c.curStmt
 	lres, err := c.evalExpression(node.Left)
-	if err != nil && !toleratedOperandError(node.Operator, err) {
-		return nil, err
-	} // an unknown identifier counts as nil only for '==', '!=', and logical operators
+	if err != nil {
+		if !toleratedOperandError(node.Operator, err) {
+			return nil, err
+		} // an unknown identifier counts as nil only for '==', '!=', and logical operators
+		c.curStmt = cur // the failure is forgiven: the statement it happened in is no longer blamed
+	}
 
 	switch { // fast return
 	case node.Operator == "&&" && !c.isTruthy(lres):
@@ -561,9 +572,12 @@ func (c *compiler) evalInfixExpression(node *ast.InfixExpression) (interface{}, 
 	}
 
 	rres, err := c.evalExpression(node.Right)
-	if err != nil && !toleratedOperandError(node.Operator, err) {
-		return nil, err
-	} // an unknown identifier counts as nil only for '==', '!=', and logical operators
+	if err != nil {
+		if !toleratedOperandError(node.Operator, err) {
+			return nil, err
+		} // an unknown identifier counts as nil only for '==', '!=', and logical operators
+		c.curStmt = cur
+	}
 
 	switch node.Operator {
 	case "&&", "||":
